@@ -37,6 +37,10 @@ def svarint(n):
 def enc_prim(name, v):
     if name == "bool":
         return b"\x01" if v else b"\x00"
+    if name == "int8":
+        return struct.pack("<b", v)      # single byte, two's complement (binary.md, "Signed integers")
+    if name == "uint8":
+        return struct.pack("<B", v)      # single byte (binary.md, "Unsigned Integers")
     if name in am.SIGNED or name in ("date", "time", "datetime"):
         return svarint(v)
     if name in am.INT_RANGE:
@@ -156,6 +160,10 @@ def dec_prim(name, b):
         if c > 1:
             raise DecodeError("bool byte %d" % c)
         return bool(c)
+    if name == "int8":
+        return struct.unpack("<b", b.take(1))[0]
+    if name == "uint8":
+        return b.take(1)[0]
     if name in am.SIGNED or name in ("date", "time", "datetime"):
         return b.svar()
     if name in am.INT_RANGE:
